@@ -824,7 +824,14 @@ def replay(path):
         o = safe(lambda: impl_encode(l))
         print("TagList.encode:", show(o)[:200])
         if isinstance(o, bytes):
-            validate_records(chk, [{"id": 1, "k": "enc", "l": [as_rec(t) for t in l], "o": list(o)}], {1: {"l": l, "o": o, "where": "replay"}}, "replay")
+            recs = [{"id": 1, "k": "enc", "l": [as_rec(t) for t in l], "o": list(o)}]
+            meta = {1: {"l": l, "o": o, "where": "replay"}}
+            d = dec_record(chk, 2, o, rng, "replay")
+            print("TagList.decode of those octets:", None if d is None else ("invalid-tag error" if not d["ok"] else [(t["cls"], t["num"], t["lvt"], len(t["data"])) for t in d["tags"]]))
+            if d:
+                recs.append(d)
+                meta[2] = {"b": o, "where": "replay"}
+            validate_records(chk, recs, meta, "replay")
         else:
             chk.violation("EncodeEqualsSpec", {"api": "TagList.encode"}, {"raised": o}, rp)
     else:
